@@ -39,6 +39,10 @@ func checkC18(c *Check) {
 	importRules(c, "C09", func(s *Check) { c09AcceptedListAfterAccept(s, "K12") }, map[string]bool{"K12": true}, "R14")
 	c18NoByteCut(c, "R15")
 	c18NullSenderNotConverted(c, "R16")
+	c.Rule("R17", "the queue keeps a recipient under the very string it was given: the report looks the sender's spelling up in the original-recipient table with the stored recipient as the key, and the pipeline keyed that table with the string it handed to AddRcpt (C10.R5)", 1)
+	importRules(c, "C10", c10Recipients, map[string]bool{"R5": true}, "R17")
+	c.Rule("R18", "the queue and the pipeline keep the metadata object they were given: the original-recipient entries the pipeline records for the second and later recipients of a transaction (after the queue's delivery was started) are in the record the report is built from (C10.R3e)", 1)
+	importRules(c, "C10", checkC10, map[string]bool{"R3e": true}, "R18")
 	c.Rule("R12", "deliver: the error of Body / Commit is recorded for exactly the accepted recipients, the error of AddRcpt for exactly its recipient (a recipient's own refusal is what the report shows) (C01.R2)", 3)
 	{
 		sub := newCheck("C01", c.P, c.Tier)
@@ -677,6 +681,21 @@ func c18Alias(c *Check) {
 		}
 		rc := c.CtxOf(fi)
 		for _, as := range sites {
+			// a store into the field of a local VALUE copy of the structure (`cpy := *msgMeta; cpy.OriginalRcpts = …` in
+			// DeepCopy) gives the copy a table of its own; the message's table is not touched
+			private := false
+			for _, l := range as.Lhs {
+				if sel, isSel := ast.Unparen(l).(*ast.SelectorExpr); isSel {
+					if v, isVar := objOf(fInfo, sel.X).(*types.Var); isVar && !v.IsField() && v.Parent() != nil && v.Pkg() != nil && v.Parent() != v.Pkg().Scope() {
+						if _, isStruct := v.Type().Underlying().(*types.Struct); isStruct {
+							private = true
+						}
+					}
+				}
+			}
+			if private {
+				continue
+			}
 			nNew++
 			pt, ok := rc.F.PtOfNode(as)
 			if !ok {
